@@ -1,9 +1,15 @@
 /-
   Props.C17 — native-Python codec round trip and Python-value encoding equivalence.
-  Property theorems only (lemmas live in Proofs/Native*.lean).
+  Property theorems only (lemmas live in Proofs/Native*.lean).  The model is lean/Asn1/Native.lean:
+  `toNative`/`fromNative` mirror pyasn1/codec/native, `encodePy` the bare-value ("Python value +
+  asn1Spec") branches of the BER/CER/DER encoders, `toTree` builds the plain-Python tree of a value.
+  A Python float standing for a REAL is kept in the model as the exact value it denotes; the
+  conversion float(Real) / Real(float) is outside the model (the check compares through float()).
 -/
 import Asn1.Native
 import Proofs.NativeText
+import Proofs.NativeRoundtrip
+import Proofs.NativeTree
 
 namespace Asn1.C17
 
@@ -21,7 +27,120 @@ theorem oid_text (arcs : List Nat) : parseOid (oidText arcs) = .ok arcs :=
 theorem int_text (n : Nat) : Asn1.Time.pyInt (Asn1.Time.dec n) = some (Int.ofNat n) :=
   pyInt_dec n
 
-example : parseBits (bitsText []) = .ok [] := bits_text_roundtrip []
-example : parseOid (oidText [1, 3, 6, 1, 4, 1, 4294967296]) = .ok [1, 3, 6, 1, 4, 1, 4294967296] := oid_text _
+/-- Native round trip: for every type of the universe (tagged, nested, with OPTIONAL / DEFAULT /
+    CHOICE / ANY members) and every value of it, the native encoder succeeds and the native decoder
+    under the same type reads its output back as exactly the same abstract content: absent OPTIONAL
+    members stay absent, the empty BIT STRING stays empty, the chosen alternative stays chosen.
+    (REAL: the exact value; the float step is outside the model.) -/
+theorem native_roundtrip (T : Ty) (v : Val) (h : HasType T v = true) :
+    ∃ p, toNative T v = .ok p ∧ fromNative T p = .ok v :=
+  rt T v h
+
+/-- Python-value encoding equivalence, for ANY encoder configuration and any options: encoding the
+    plain tree of `v` (absent OPTIONAL members and DEFAULT members holding their default simply
+    missing from the mapping) together with the type gives exactly what encoding the value gives —
+    bytes or refusal.
+
+    Full statement (without `defaultsOk`): `∀ T v, HasType T v → encodePy cfg o T (toTree T v) =
+    encItem cfg o T v`.  It is restricted by the decidable guard `defaultsOk false T` (every DEFAULT
+    member is of a scalar type other than REAL, with a well-typed default), which excludes exactly
+    the region of the recorded findings T11 / T12 (DEFAULT comparison through `==` of constructed
+    values / through floats). -/
+theorem pytree_encoding_partial (cfg : EncCfg) (o : EncOpts) (T : Ty) (v : Val)
+    (h : HasType T v = true) (hd : defaultsOk false T = true) :
+    encodePy cfg o T (toTree T v) = encItem cfg o T v := by
+  show finishItem cfg (normOpts cfg o) T (encValuePy cfg (normOpts cfg o) T (toTreeG false T v))
+    = finishItem cfg (normOpts cfg o) T (encValue cfg (normOpts cfg o) T v)
+  rw [pt cfg false T (normOpts cfg o) v h hd]
+
+/-- the same when the mapping also GIVES the DEFAULT members that hold their default, provided `==`
+    recognises the default in the given form (`defaultsOk true`: bool, int, '0101' text, OCTET STRING
+    bytes, arc tuple).  Outside this guard lies finding D17 (see `default_given_as_bytes_differs`). -/
+theorem pytree_encoding_given_partial (cfg : EncCfg) (o : EncOpts) (T : Ty) (v : Val)
+    (h : HasType T v = true) (hd : defaultsOk true T = true) :
+    encodePy cfg o T (toTreeG true T v) = encItem cfg o T v := by
+  show finishItem cfg (normOpts cfg o) T (encValuePy cfg (normOpts cfg o) T (toTreeG true T v))
+    = finishItem cfg (normOpts cfg o) T (encValue cfg (normOpts cfg o) T v)
+  rw [pt cfg true T (normOpts cfg o) v h hd]
+
+/-- the three configurations generated from the source -/
+theorem pytree_encoding_ber (o : EncOpts) (T : Ty) (v : Val) (h : HasType T v = true)
+    (hd : defaultsOk false T = true) :
+    encodePy Generated.berEnc o T (toTree T v) = encItem Generated.berEnc o T v :=
+  pytree_encoding_partial _ o T v h hd
+
+theorem pytree_encoding_cer (o : EncOpts) (T : Ty) (v : Val) (h : HasType T v = true)
+    (hd : defaultsOk false T = true) :
+    encodePy Generated.cerEnc o T (toTree T v) = encItem Generated.cerEnc o T v :=
+  pytree_encoding_partial _ o T v h hd
+
+theorem pytree_encoding_der (o : EncOpts) (T : Ty) (v : Val) (h : HasType T v = true)
+    (hd : defaultsOk false T = true) :
+    encodePy Generated.derEnc o T (toTree T v) = encItem Generated.derEnc o T v :=
+  pytree_encoding_partial _ o T v h hd
+
+/-- the sort key the DER SET encoder computes from a bare CHOICE member is the one it computes
+    from the value object, through any depth of nested untagged CHOICEs -/
+theorem bare_set_key (ord : SetOrder) (T : Ty) (v : Val) (h : HasType T v = true) :
+    setKeyPy ord T (toTree T v) = .ok (setKey ord T v) :=
+  setKeyPy_tree false ord T v h
+
+/-! ### the recorded finding D17 on its witness -/
+
+/-- SEQUENCE { f0 PrintableString DEFAULT "a" } -/
+def d17Ty : Ty := .seq (.cons (.dflt (.str [0x61])) (.prim (.str 19)) .nil)
+def d17Val : Val := .seq [.str [0x61]]
+
+/-- the mapping that gives the DEFAULT member as bytes `{'f0': b'a'}` is encoded WITH the member
+    (30 03 13 01 61) although it holds the default, the value object without it (30 00): Python's
+    `b'a' == PrintableString('a')` is False.  This is what the code does; `pytree_encoding_given_partial`
+    excludes it through `defaultsOk true`. -/
+theorem default_given_as_bytes_differs :
+    encodePy Generated.derEnc {} d17Ty (toTreeG true d17Ty d17Val) = .ok [0x30, 0x03, 0x13, 0x01, 0x61]
+    ∧ encItem Generated.derEnc {} d17Ty d17Val = .ok [0x30, 0x00]
+    ∧ defaultsOk true d17Ty = false := by
+  refine ⟨by rfl, by rfl, by decide⟩
+
+/-! ### non-vacuity: a nested, tagged type with OPTIONAL, DEFAULT, CHOICE, SET and SEQUENCE OF -/
+
+/-- SEQUENCE { f0 INTEGER, f1 [1] IMPLICIT BIT STRING OPTIONAL, f2 [2] EXPLICIT INTEGER DEFAULT 7,
+      f3 CHOICE { f0 SEQUENCE OF OBJECT IDENTIFIER, f1 NULL, f2 CHOICE { f0 [5] BOOLEAN } },
+      f4 [4] SET { f0 UTF8String DEFAULT "a", f1 [0] OCTET STRING OPTIONAL } } -/
+def exTy : Ty :=
+  .seq (.cons .req (.prim .integer)
+       (.cons .opt (.tagged false .context 1 (.prim .bitString))
+       (.cons (.dflt (.int 7)) (.tagged true .context 2 (.prim .integer))
+       (.cons .req (.choice (.cons .req (.seqOf (.prim .oid))
+                            (.cons .req (.prim .null)
+                            (.cons .req (.choice (.cons .req (.tagged false .context 5 (.prim .boolean)) .nil))
+                            .nil))))
+       (.cons .req (.tagged false .context 4
+              (.set (.cons (.dflt (.str [0x61])) (.prim (.str 12))
+                    (.cons .opt (.tagged false .context 0 (.prim (.str 4))) .nil))))
+       .nil)))))
+
+/-- f1 absent, f2 holding its default, the nested CHOICE chosen, the inner DEFAULT not default -/
+def exVal : Val :=
+  .seq [.int 5, .absent, .int 7, .choice 2 (.choice 0 (.bool true)), .seq [.str [0x62], .absent]]
+
+/-- the empty BIT STRING present, a SEQUENCE OF alternative, the inner OPTIONAL present -/
+def exVal2 : Val :=
+  .seq [.int (-1), .bits [], .int 8, .choice 0 (.seqOf [.oid [1, 3, 6], .oid [2, 999]]),
+        .seq [.str [0x61], .str []]]
+
+example : HasType exTy exVal = true := by decide
+example : HasType exTy exVal2 = true := by decide
+example : defaultsOk false exTy = true := by decide
+/-- `defaultsOk true` fails here exactly because of the UTF8String DEFAULT (D17 region) -/
+example : defaultsOk true exTy = false := by decide
+
+example : ∃ p, toNative exTy exVal = .ok p ∧ fromNative exTy p = .ok exVal :=
+  native_roundtrip _ _ (by decide)
+example : ∃ p, toNative exTy exVal2 = .ok p ∧ fromNative exTy p = .ok exVal2 :=
+  native_roundtrip _ _ (by decide)
+example : encodePy Generated.derEnc {} exTy (toTree exTy exVal) = encItem Generated.derEnc {} exTy exVal :=
+  pytree_encoding_der _ _ _ (by decide) (by decide)
+example : encodePy Generated.cerEnc {} exTy (toTree exTy exVal2) = encItem Generated.cerEnc {} exTy exVal2 :=
+  pytree_encoding_cer _ _ _ (by decide) (by decide)
 
 end Asn1.C17
